@@ -6,9 +6,9 @@ import c01
 
 PID = "C06"
 LEVEL = "proof"
-COQ_TARGETS = ["Props/C06.vo", "Props/C06_identity.vo", "Props/C06_fp.vo"]
-PROPS_FILES = ["C06", "C06_identity", "C06_fp"]
-THEOREMS = ["C06_fingerprints", "C06_norm_strict_mono", "C06_exp_strict_mono", "C06_norm_f_is_pdf", "C06_exp_f_is_pdf", "C06_norm_layer_areas",
+COQ_TARGETS = ["Props/C06.vo", "Props/C06_identity.vo", "Props/C06_fp.vo", "Props/C06_model.vo"]
+PROPS_FILES = ["C06", "C06_identity", "C06_fp", "C06_model"]
+THEOREMS = ["C06_model_zig_returns_accepted", "C06_fingerprints", "C06_norm_strict_mono", "C06_exp_strict_mono", "C06_norm_f_is_pdf", "C06_exp_f_is_pdf", "C06_norm_layer_areas",
             "C06_exp_layer_areas", "C06_exp_base_area", "C06_norm_base_area", "C06_norm_base_consts", "C06_norm_ends", "C06_exp_ends", "C06_fingerprints",
             "C06_zig_bits_independent", "C06_zig_u_range", "C06_zig_density_identity", "C06_zig_density_identity_sym",
             "C06_zig_tail_identity", "C06_exp_tail_event", "C06_normal_tail_accept", "C06_normal_tail_density"]
